@@ -579,7 +579,8 @@ TIE_TOL = {
     'Statistics.vcv_cart2local_31': [(3, 'scaled', 16)],
     'Statistics.vcv_local2cart_33': [(9, 'scaled', 16)],
     'Statistics.vcv_local2cart_31': [(3, 'scaled', 16)],
-    'Statistics.relative_error': [(2, 'scaled', 64), (1, 'abs', 1e-6), (1, 'scaled', 64)],
+    # differences of covariances cancel before the square roots: relative 1e-11 of the result
+    'Statistics.relative_error': [(2, 'scaled', 65536), (1, 'abs', 1e-4), (1, 'scaled', 65536)],
     'Geodesy.enu2xyz': [(3, 'scaled', 8)],
     'Geodesy.xyz2enu': [(3, 'scaled', 8)],
     'Transform.conform7': [(3, 'scaled', 8), (9, 'scaled', 32)],
